@@ -1,5 +1,5 @@
 (* C04 — crop returns exactly the smallest index box containing the world points *)
-From NDV Require Import M_Crop P_Crop P_CropAgain.
+From NDV Require Import M_Crop P_Crop P_CropAgain P_CropMonotone.
 Open Scope Z_scope.
 
 (* on every touched axis the emitted item selects exactly the positions from the smallest to the largest
@@ -63,6 +63,12 @@ Print Assumptions C04_recrop.
 Theorem C04_rounding_shift : forall q c, round_half_up (q - inject_Z c) = round_half_up q - c.
 Proof. exact round_half_up_shift. Qed.
 Print Assumptions C04_rounding_shift.
+
+(* one more point never shrinks the region *)
+Theorem C04_monotone : forall idxs i kd kd' len x, idxs <> [] -> Forall (fun k => 0 <= k < len) (i :: idxs) ->
+  selects len (axis_item len idxs kd) x -> selects len (axis_item len (i :: idxs) kd') x.
+Proof. exact axis_item_monotone. Qed.
+Print Assumptions C04_monotone.
 
 Example C04_nonvacuous :
   crop_item [6; 6; 6] [[3; 1; 2]; []; [4]] false = Ok [ISlice (Some 1) (Some 4) None; full_slice; IInt 4]
